@@ -408,28 +408,87 @@ func (k *C12Key) cteText() string {
 	return c12Times[k.Time].cte
 }
 
+// cbeDoc spells the case as a CBE document (hand-assembled: the library's encoder always picks the
+// canonical form).
+func (c *C12Case) cbeDoc() []byte {
+	doc := []byte{0x81, 0x00}
+	if c.RecordType {
+		doc = append(doc, 0x7f, 0xf1, 0x01, 'r')
+	} else {
+		doc = append(doc, 0x99)
+	}
+	for i := range c.Keys {
+		if c.Keys[i].Mark && !c.RecordType {
+			id := fmt.Sprintf("m%d", i)
+			doc = append(doc, 0x7f, 0xf0, byte(len(id)))
+			doc = append(doc, id...)
+		}
+		doc = append(doc, c.Keys[i].cbeBytes()...)
+		if !c.RecordType {
+			doc = append(doc, 0x7d)
+		}
+	}
+	doc = append(doc, 0x9b)
+	if c.RecordType {
+		doc = append(doc, 0x7d)
+	}
+	return doc
+}
+
+// cteDoc spells the case as a CTE document.
+func (c *C12Case) cteDoc() []byte {
+	var sb strings.Builder
+	sb.WriteString("c0\n")
+	if c.RecordType {
+		sb.WriteString("@r<")
+	} else {
+		sb.WriteString("{")
+	}
+	for i := range c.Keys {
+		sb.WriteString("\n ")
+		if c.Keys[i].Mark && !c.RecordType {
+			sb.WriteString(fmt.Sprintf("&m%d:", i))
+		}
+		sb.WriteString(c.Keys[i].cteText())
+		if !c.RecordType {
+			sb.WriteString(" = null")
+		}
+	}
+	if c.RecordType {
+		sb.WriteString("\n>\nnull")
+	} else {
+		sb.WriteString("\n}")
+	}
+	return []byte(sb.String())
+}
+
+func genC12Case(t *rapid.T, via string) *C12Case {
+	c := &C12Case{Via: via}
+	c.RecordType = rapid.IntRange(0, 4).Draw(t, "rt") == 0
+	n := rapid.IntRange(2, 6).Draw(t, "n")
+	for i := 0; i < n; i++ {
+		c.Keys = append(c.Keys, genC12Key(t, c.Via))
+	}
+	if rapid.Bool().Draw(t, "collide") {
+		// deliberate collision: re-draw the form of an existing key value
+		src := c.Keys[rapid.IntRange(0, n-1).Draw(t, "src")]
+		dup := src
+		dup.Cuts = nil
+		dup.DSplits = nil
+		c12PickForm(t, &dup, c.Via)
+		dup.Mark = rapid.IntRange(0, 3).Draw(t, "dupmark") == 0
+		pos := rapid.IntRange(1, n).Draw(t, "dpos")
+		c.Keys = append(c.Keys[:pos], append([]C12Key{dup}, c.Keys[pos:]...)...)
+	}
+	return c
+}
+
 func init() {
 	Register(&Prop{
 		ID:  "C12",
 		New: func() interface{} { return &C12Case{} },
 		Gen: func(t *rapid.T, ctx *Ctx) interface{} {
-			c := &C12Case{Via: rapid.SampledFrom([]string{"rules", "rules", "cbe", "cte"}).Draw(t, "via")}
-			c.RecordType = rapid.IntRange(0, 4).Draw(t, "rt") == 0
-			n := rapid.IntRange(2, 6).Draw(t, "n")
-			for i := 0; i < n; i++ {
-				c.Keys = append(c.Keys, genC12Key(t, c.Via))
-			}
-			if rapid.Bool().Draw(t, "collide") {
-				// deliberate collision: re-draw the form of an existing key value
-				src := c.Keys[rapid.IntRange(0, n-1).Draw(t, "src")]
-				dup := src
-				dup.Cuts = nil
-				dup.DSplits = nil
-				c12PickForm(t, &dup, c.Via)
-				dup.Mark = rapid.IntRange(0, 3).Draw(t, "dupmark") == 0
-				pos := rapid.IntRange(1, n).Draw(t, "dpos")
-				c.Keys = append(c.Keys[:pos], append([]C12Key{dup}, c.Keys[pos:]...)...)
-			}
+			c := genC12Case(t, rapid.SampledFrom([]string{"rules", "rules", "cbe", "cte"}).Draw(t, "via"))
 			return c
 		},
 		Check: func(ci interface{}, ctx *Ctx) error {
@@ -511,27 +570,7 @@ func init() {
 				}
 				return nil
 			case "cbe":
-				doc := []byte{0x81, 0x00}
-				if c.RecordType {
-					doc = append(doc, 0x7f, 0xf1, 0x01, 'r')
-				} else {
-					doc = append(doc, 0x99)
-				}
-				for i := range c.Keys {
-					if c.Keys[i].Mark && !c.RecordType {
-						id := fmt.Sprintf("m%d", i)
-						doc = append(doc, 0x7f, 0xf0, byte(len(id)))
-						doc = append(doc, id...)
-					}
-					doc = append(doc, c.Keys[i].cbeBytes()...)
-					if !c.RecordType {
-						doc = append(doc, 0x7d)
-					}
-				}
-				doc = append(doc, 0x9b)
-				if c.RecordType {
-					doc = append(doc, 0x7d)
-				}
+				doc := c.cbeDoc()
 				_, err := decodeCBE(doc, cfg)
 				if dupAt < 0 && err != nil {
 					return fmt.Errorf("all keys denote different values but CBE decoder+rules rejected: %v\ndoc=%s", err, hexdump(doc))
@@ -541,29 +580,7 @@ func init() {
 				}
 				return nil
 			default:
-				var sb strings.Builder
-				sb.WriteString("c0\n")
-				if c.RecordType {
-					sb.WriteString("@r<")
-				} else {
-					sb.WriteString("{")
-				}
-				for i := range c.Keys {
-					sb.WriteString("\n ")
-					if c.Keys[i].Mark && !c.RecordType {
-						sb.WriteString(fmt.Sprintf("&m%d:", i))
-					}
-					sb.WriteString(c.Keys[i].cteText())
-					if !c.RecordType {
-						sb.WriteString(" = null")
-					}
-				}
-				if c.RecordType {
-					sb.WriteString("\n>\nnull")
-				} else {
-					sb.WriteString("\n}")
-				}
-				doc := []byte(sb.String())
+				doc := c.cteDoc()
 				var err error
 				o := ctx.Guard(func() { _, err = decodeCTE(doc, cfg) })
 				if o.TimedOut || o.Panic != nil {
